@@ -36,8 +36,19 @@ def main():
         t0 = time.time()
         mod.run(shard, rec, B)
         rec.note("workload_s", time.time() - t0)
-    except BaseException as e:  # harness failure: inconclusive, never a verdict on the library
-        rec.inconclusive("worker crashed: %s: %s\n%s" % (type(e).__name__, e, traceback.format_exc()[-1500:]))
+    except BaseException as e:
+        tb = traceback.extract_tb(e.__traceback__)
+        repo = os.path.realpath(os.environ.get("VP_REPO", "/repo")) + os.sep
+        inner = tb[-1] if tb else None
+        if inner is not None and os.path.realpath(inner.filename).startswith(repo) and isinstance(e, Exception):
+            # the library itself raised on a well-formed input outside a guarded call: that is an observation
+            # about the library (the property promises a result), and the rest of this shard is lost
+            where = ["%s:%d %s" % (os.path.basename(f.filename), f.lineno, f.name) for f in tb[-4:]]
+            rec.violation("uncaught.%s" % type(e).__name__, {"where": where}, expected="a result",
+                          observed="%s: %s" % (type(e).__name__, str(e)[:300]), tags={"exception": type(e).__name__})
+            rec.inconclusive("shard aborted by a library exception (reported as violation): %s" % where[-1])
+        else:  # harness failure: inconclusive, never a verdict on the library
+            rec.inconclusive("worker crashed: %s: %s\n%s" % (type(e).__name__, e, traceback.format_exc()[-1500:]))
     res = rec.result()
     try:
         import numpy
